@@ -245,7 +245,7 @@ def run_check(prop, tier, base, mod, workers=None, n_runs=None, deadline=None):
               '%.1fs wall%s' % (len(results), params['runs'], evidence.evaluations(prop, agg, results),
                                 len(nontrivial), n_viol, wall,
                                 ' (budget exhausted before all runs were done)' if exhausted else ''))
-        minimum = params.get('min_runs', 1)
+        minimum = min(params.get('min_runs', 1), params['runs'])
         if len(results) < minimum:
             errors.append('only %d runs completed (< %d)' % (len(results), minimum))
         for line in out_lines:
